@@ -154,6 +154,9 @@ pub trait Fl: 'static {
     fn into_iter_list(n: &Self::Node) -> Vec<Triple>;
     /// redundant observers for the keys given, in the shape of `Obs` in Adjacency.tla
     fn obs(n: &Self::Node, keys: &[K]) -> Value;
+    /// every read-only query of a node, results dropped, NO cross-checks (safe to call while
+    /// other threads mutate the node)
+    fn plain_queries(n: &Self::Node, k: K);
     /// neighbour handle obtained through a lookup method (find_outbound / find_adjacent ...)
     fn find_handle(n: &Self::Node, k: K) -> Option<Self::Node>;
     /// handles obtained as endpoints of iterated edges of `n`: (peer key, handle)
@@ -463,6 +466,11 @@ macro_rules! directed_flavour {
                     json!({"od": n.out_degree(), "id": n.in_degree(), "root": n.is_root(),
                            "leaf": n.is_leaf(), "orphan": n.is_orphan(), "conn": conn, "fo": fo, "fi": fi})
                 }
+                fn plain_queries(n: &Self::Node, k: K) {
+                    let _ = (n.out_degree(), n.in_degree(), n.is_root(), n.is_leaf(), n.is_orphan(), n.is_connected(&k));
+                    let _ = n.find_outbound(&k);
+                    let _ = n.find_inbound(&k);
+                }
                 fn find_handle(n: &Self::Node, k: K) -> Option<Self::Node> {
                     n.find_outbound(&k).or_else(|| n.find_inbound(&k))
                 }
@@ -605,6 +613,10 @@ macro_rules! undirected_flavour {
                         })
                         .collect();
                     json!({"deg": n.degree(), "orphan": n.is_orphan(), "conn": conn})
+                }
+                fn plain_queries(n: &Self::Node, k: K) {
+                    let _ = (n.degree(), n.is_orphan(), n.is_connected(&k));
+                    let _ = n.find_adjacent(&k);
                 }
                 fn find_handle(n: &Self::Node, k: K) -> Option<Self::Node> {
                     n.find_adjacent(&k)
